@@ -360,7 +360,7 @@ MAINLOOP:
 				watchingFile = true
 			}
 		}
-		ws.updateDirWatches(oldResolvedCfgDir, filepath.Dir(resolvedCfgPath))
+		ws.updateDirWatches(cleanedPathDir, oldResolvedCfgDir, filepath.Dir(resolvedCfgPath))
 
 		switch t := parseErr.(type) {
 		case nil:
@@ -381,7 +381,7 @@ MAINLOOP:
 
 }
 
-func (ws *WatchingSource) updateDirWatches(oldResolvedCfgDir, resolvedCfgDir string) {
+func (ws *WatchingSource) updateDirWatches(cleanedPathDir, oldResolvedCfgDir, resolvedCfgDir string) {
 	if oldResolvedCfgDir == resolvedCfgDir {
 		return
 	}
@@ -390,6 +390,11 @@ func (ws *WatchingSource) updateDirWatches(oldResolvedCfgDir, resolvedCfgDir str
 	if addErr := ws.watcher.Add(resolvedCfgDir); addErr != nil {
 		ws.logger.Printf("failed to add new watch for symlink-resolved directory: %q: %s",
 			resolvedCfgDir, addErr)
+		return
+	}
+	if oldResolvedCfgDir == cleanedPathDir {
+		// the config's own directory stays watched for as long as we run:
+		// that is where the file (or the symlink to it) gets replaced.
 		return
 	}
 	if removeErr := ws.watcher.Remove(oldResolvedCfgDir); removeErr != nil {
